@@ -110,6 +110,14 @@ func tar(ctx context.Context, enc FormatEncoder, fs *fsBufReader, f *File) (n in
 				break
 			}
 
+			// Skip (and warn about) things we can't encode properly. This has to happen
+			// before the filename element is written, a filename without a following
+			// entry is not a valid archive.
+			if !(f.IsDir() || f.IsRegular() || f.IsSymlink() || f.IsDevice()) {
+				fmt.Fprintf(os.Stderr, "skipping '%s' : unsupported node type\n", f.Name)
+				continue
+			}
+
 			start := n
 			// CaFormatFilename - Write the filename element, then recursively encode
 			// the items in the directory
